@@ -64,7 +64,15 @@ def run(pid, tier, k3_programs=None):
         out3 = k3.explore(tier, C.seed(), programs=set(k3_programs), with_traces=False)
         for b in out3["build_errors"]:
             res.add_broken("K3 harness does not compile against /repo (%s)" % b["config"], b["log"])
-        mine3 = [f for f in out3["failures"] if pid in k3check.classify(f["why"])]
+        def is_mine(f):
+            if pid in k3check.classify(f["why"]):
+                return True
+            # C16: whether a call of the inserting family consumes its arguments is decided by its duplicate check; under
+            # contention on one key that decision is observable as the call's result (reported "inserted" for a present
+            # key = arguments consumed although the key was there, and the stored pair overwritten)
+            w = f["why"].lower()
+            return pid == "C16" and ("not linearizable" in w or "stored twice" in w or "size()" in w or "crash" in w)
+        mine3 = [f for f in out3["failures"] if is_mine(f)]
         for f in mine3[:3]:
             res.add_failing(f)
         if mine3 and not [b for b in res.broken if "K3" in b["what"]]:
